@@ -272,6 +272,8 @@ def c02(ctx, case, io):
     mans = {}       # (repo, digest) -> (bytes, media type)
     tags = {}       # (repo, tag) -> digest
     sess = {}
+    was_child = set()      # (repo, digest) listed as a child by an acknowledged index push
+    restarted = False
     limit = case["conf"]["mlimit"]
     for k, (st, res) in enumerate(zip(case["steps"], io["steps"])):
         if res.get("panic"):
@@ -308,6 +310,9 @@ def c02(ctx, case, io):
                     mt = st["ctype"] or (detect_py(views[body]) if body in views else None)
                     mans[(repo, d)] = (body, mt)
                     blobs[(repo, d)] = body
+                    if body in views and kind_of_mt(mt or "") == "index":
+                        for cd in views[body]["manifests"]:
+                            was_child.add((repo, cd["dig"]))
                     if gen.is_tag_py(st["arg"]):
                         tags[(repo, st["arg"])] = d
         elif kind == "mdel" and status == 202:
@@ -325,6 +330,7 @@ def c02(ctx, case, io):
         elif kind in ("gc", "gcpass", "restart") or kind == "expire":
             if kind == "restart" and case["conf"]["store"] == "dir":
                 sess.clear()
+                restarted = True
                 continue
             # what a collection may remove is judged by C05/C06: forget everything here
             if kind != "expire":
@@ -342,14 +348,18 @@ def c02(ctx, case, io):
                 body, mt = mans[(repo, d)]
                 # every Accept list containing the stored type must be served
                 if mt is None or mt in accept_list(st["accept"]):
-                    check_read(ctx, case, k, st, res, body, d, mt, "manifest")
+                    sig = None
+                    if restarted and (repo, d) in was_child and d not in [v for (r_, t), v in tags.items() if r_ == repo]:
+                        sig = "C02:child-manifest-lost-after-index-delete-and-restart"
+                    check_read(ctx, case, k, st, res, body, d, mt, "manifest", lost_sig=sig)
 
 
-def check_read(ctx, case, k, st, res, want, d, mt, what):
+def check_read(ctx, case, k, st, res, want, d, mt, what, lost_sig=None):
     status = res.get("status")
     exp_status = 206 if st.get("rng") else 200
     if status != exp_status:
-        ctx.violation("acknowledged %s %s read back with status %s" % (what, d[:19], status), hist(case, k, res), "C02:%s-lost" % what)
+        ctx.violation("acknowledged %s %s read back with status %s" % (what, d[:19], status), hist(case, k, res),
+                      lost_sig if (lost_sig and status == 404) else "C02:%s-lost" % what)
         return
     if hdr(res, "Docker-Content-Digest") != d:
         ctx.violation("%s %s read back with Docker-Content-Digest %r" % (what, d[:19], hdr(res, "Docker-Content-Digest")), hist(case, k, res), "C02:digest-header")
